@@ -11,6 +11,17 @@
 
 namespace hx {
 
+// request-scoped state: guard-zone violations around view buffers, and (on request, mask bit 128)
+// an echo of every operand's coefficients after the call (C09: operations do not modify their
+// arguments; C10: writes through a view touch nothing adjacent)
+struct Scope {
+  bool echo = false;
+  bool guard_broken = false;
+  std::vector<double> echoed;
+};
+inline Scope& scope() { static thread_local Scope s; return s; }
+constexpr double kGuard = 1234.5;
+
 template <class M> void pushM(std::vector<double>& out, const M& m) {
   for (int i = 0; i < m.rows(); ++i) for (int j = 0; j < m.cols(); ++j) out.push_back(m(i, j));
 }
@@ -21,6 +32,7 @@ template <class G, char S> struct Operand;
 template <class G> struct Operand<G, 'o'> {
   G g;
   explicit Operand(const double* p) { for (int i = 0; i < G::RepSize; ++i) g.coeffs()(i) = p[i]; }
+  ~Operand() { if (scope().echo) for (int i = 0; i < G::RepSize; ++i) scope().echoed.push_back(g.coeffs()(i)); }
   const G& get() const { return g; }
   G& mut() { return g; }
 };
@@ -29,8 +41,12 @@ template <class G> struct Operand<G, 'm'> {
   double buf[G::RepSize + 9];
   Eigen::Map<G> v;
   explicit Operand(const double* p) : v(buf + 3) {
-    for (auto& x : buf) x = 1234.5;
+    for (auto& x : buf) x = kGuard;
     for (int i = 0; i < G::RepSize; ++i) buf[3 + i] = p[i];
+  }
+  ~Operand() {
+    for (int i = 0; i < G::RepSize + 9; ++i) if ((i < 3 || i >= 3 + G::RepSize) && buf[i] != kGuard) scope().guard_broken = true;
+    if (scope().echo) for (int i = 0; i < G::RepSize; ++i) scope().echoed.push_back(buf[3 + i]);
   }
   const Eigen::Map<G>& get() const { return v; }
   Eigen::Map<G>& mut() { return v; }
@@ -39,8 +55,12 @@ template <class G> struct Operand<G, 'c'> {
   double buf[G::RepSize + 9];
   Eigen::Map<const G> v;
   explicit Operand(const double* p) : v(buf + 3) {
-    for (auto& x : buf) x = 1234.5;
+    for (auto& x : buf) x = kGuard;
     for (int i = 0; i < G::RepSize; ++i) buf[3 + i] = p[i];
+  }
+  ~Operand() {
+    for (int i = 0; i < G::RepSize + 9; ++i) if ((i < 3 || i >= 3 + G::RepSize) && buf[i] != kGuard) scope().guard_broken = true;
+    if (scope().echo) for (int i = 0; i < G::RepSize; ++i) scope().echoed.push_back(buf[3 + i]);
   }
   const Eigen::Map<const G>& get() const { return v; }
 };
@@ -49,14 +69,19 @@ template <class T, char S> struct TOperand;
 template <class T> struct TOperand<T, 'o'> {
   T t;
   explicit TOperand(const double* p) { for (int i = 0; i < T::DoF; ++i) t.coeffs()(i) = p[i]; }
+  ~TOperand() { if (scope().echo) for (int i = 0; i < T::DoF; ++i) scope().echoed.push_back(t.coeffs()(i)); }
   const T& get() const { return t; }
 };
 template <class T> struct TOperand<T, 'm'> {
   double buf[T::DoF + 9];
   Eigen::Map<T> v;
   explicit TOperand(const double* p) : v(buf + 3) {
-    for (auto& x : buf) x = 1234.5;
+    for (auto& x : buf) x = kGuard;
     for (int i = 0; i < T::DoF; ++i) buf[3 + i] = p[i];
+  }
+  ~TOperand() {
+    for (int i = 0; i < T::DoF + 9; ++i) if ((i < 3 || i >= 3 + T::DoF) && buf[i] != kGuard) scope().guard_broken = true;
+    if (scope().echo) for (int i = 0; i < T::DoF; ++i) scope().echoed.push_back(buf[3 + i]);
   }
   const Eigen::Map<T>& get() const { return v; }
 };
@@ -64,8 +89,12 @@ template <class T> struct TOperand<T, 'c'> {
   double buf[T::DoF + 9];
   Eigen::Map<const T> v;
   explicit TOperand(const double* p) : v(buf + 3) {
-    for (auto& x : buf) x = 1234.5;
+    for (auto& x : buf) x = kGuard;
     for (int i = 0; i < T::DoF; ++i) buf[3 + i] = p[i];
+  }
+  ~TOperand() {
+    for (int i = 0; i < T::DoF + 9; ++i) if ((i < 3 || i >= 3 + T::DoF) && buf[i] != kGuard) scope().guard_broken = true;
+    if (scope().echo) for (int i = 0; i < T::DoF; ++i) scope().echoed.push_back(buf[3 + i]);
   }
   const Eigen::Map<const T>& get() const { return v; }
 };
@@ -78,6 +107,12 @@ bool runAlias(const Req& r, Resp& R) {
   using J = typename G::Jacobian;
   constexpr int Rep = G::RepSize, DoF = G::DoF, Dim = G::Dim;
   const std::string& op = r.op;
+  static const char* const kAliases[] = {"plus", "op+", "t+X", "t.plus", "t.lplus", "t.rplus", "f_rplus", "f_lplus",
+    "f_plus", "minus", "op-", "op*", "f_rminus", "f_lminus", "f_minus", "f_compose", "f_between", "f_inverse",
+    "f_log", "f_exp", "f_act"};
+  bool known = false;
+  for (const char* k : kAliases) if (op == k) known = true;
+  if (!known) return false;
   const std::vector<double>& a = r.a;
   auto& out = R.out;
   const bool w0 = r.mask & 1, w1 = r.mask & 2;
@@ -324,7 +359,12 @@ void runS(const Req& r, Resp& R) {
 }
 
 template <class G>
-void run(const Req& r, Resp& R) {
+void run(const Req& r0, Resp& R) {
+  Req r = r0;
+  scope().echo = (r.mask & 128) != 0;
+  scope().guard_broken = false;
+  scope().echoed.clear();
+  r.mask &= 127u;
   try {
     switch (r.storage) {
       case 'o': runS<G, 'o'>(r, R); break;
@@ -336,6 +376,9 @@ void run(const Req& r, Resp& R) {
   catch (const manif::runtime_error&) { R.handled = true; R.err = "runtime_error"; R.out.clear(); }
   catch (const std::logic_error&) { R.handled = true; R.err = "logic_error"; R.out.clear(); }
   catch (const std::exception&) { R.handled = true; R.err = "other_exception"; R.out.clear(); }
+  if (scope().guard_broken) { R.handled = true; R.err = "guard_zone_overwritten"; R.out.clear(); }
+  else if (scope().echo && R.err.empty()) R.out.insert(R.out.end(), scope().echoed.begin(), scope().echoed.end());
+  scope().echo = false;
 }
 
 }  // namespace hx
